@@ -280,11 +280,10 @@ def run(ctx):
     if nd:
         ctx.cov["model_divergence_count"] = ctx.cov.get("model_divergence_count", 0) + nd
         print("NOTE C08: %d getctype texts differ from the name-builder model (first: %s)" % (nd, notes[0]))
-    # code -> spec: TLC re-reads the real texts with the ideal reader: a seeded sample (1 500 quick / 40 000 thorough)
-    cap = 1500 if quick else 40000
+    # code -> spec: TLC re-reads the real texts with the ideal reader: a seeded sample (800 quick / 40 000 thorough)
+    cap = 800 if quick else 40000
     vrecs = recs if len(recs) <= cap else rng.sample(recs, cap)
-    verdicts, diags = tlc_validate(ctx, vrecs, "pairs")
-    report(ctx, vrecs, verdicts, diags, "pair")
+    pending_pairs = vrecs
     # ---------------------------------------------------------------- gcc: declared objects
     ndecl = gcc_sizes(ctx, env, decls) if decls else 0
     # ---------------------------------------------------------------- code -> spec: chains
@@ -302,8 +301,10 @@ def run(ctx):
                 ctx.violation("chain:getctype-raised", r["fail"], {"kind": "chain", "item": list(it)})
             else:
                 crecs.append(r)
-    v2, d2 = tlc_validate(ctx, crecs, "chains")
-    report(ctx, crecs, v2, d2, "chain")
+    allv, alld = tlc_validate(ctx, pending_pairs + crecs, "pairs+chains")
+    np_ = len(pending_pairs)
+    report(ctx, pending_pairs, [v for v in allv if v[0] < np_], [d for d in alld if d[0] < np_], "pair")
+    report(ctx, crecs, [(i - np_, v) for i, v in allv if i >= np_], [(i - np_, a, b) for i, a, b in alld if i >= np_], "chain")
     for r in (recs[:2] + crecs[-2:]):
         ctx.sample({k: r[k] for k in ("mode", "name", "x", "text", "back")})
     ctx.cov["cases"] = {"pairs": len(items), "pair_records": len(recs), "chain_records": len(crecs),
